@@ -1,6 +1,5 @@
 // ---- spec layer for Components::normalize (C05, C06, C10). The two workers are outside the Verus front end (iterator
 // adaptors / cloned filters); their contracts are ASSUMED here and checked by the bounded stand-ins of vreplay.
-pub uninterp spec fn completed(cs: Seq<Energy>, carrier: Carrier) -> Seq<Energy>;
 pub uninterp spec fn aux_assigned(cs: Seq<Energy>) -> Option<Seq<Energy>>;
 pub open spec fn sorted_by_id(cs: Seq<Energy>) -> bool { forall|i: int, j: int| 0 <= i <= j < cs.len() ==> e_id(cs[i]) <= e_id(cs[j]) }
 
@@ -26,4 +25,196 @@ pub proof fn lemma_ls_sum_beyond(ls: Seq<&[f32]>, n: int, i: int)
     decreases n,
 {
     if n > 0 { lemma_ls_sum_beyond(ls, n - 1, i); }
+}
+
+// ---- complete_produced_for_onsite_generated_use (C05): relational specification, order of the appended components left open
+pub enum CKind { Use, Prod }
+pub open spec fn cp_sel(k: CKind, c: Carrier, id: i32, e: Energy) -> bool {
+    e_has_carrier(e, c) && e_id(e) == id && (match k { CKind::Use => e is Used, CKind::Prod => e is Prod })
+}
+/// sum at step t of the series of those of the first n components that are selected by (k, c, id)
+pub open spec fn cp_sum(cs: Seq<Energy>, n: int, k: CKind, c: Carrier, id: i32, t: int) -> real decreases n {
+    if n <= 0 { 0real } else { cp_sum(cs, n - 1, k, c, id, t) + (if cp_sel(k, c, id, cs[n - 1]) { ls_get(e_vals(cs[n - 1]), t) } else { 0real }) }
+}
+pub open spec fn cp_any(cs: Seq<Energy>, n: int, k: CKind, c: Carrier, id: i32) -> bool {
+    exists|j: int| 0 <= j < n && cp_sel(k, c, id, #[trigger] cs[j])
+}
+/// uncovered use of system `id` at step t: max(0, use - declared production of that system)
+pub open spec fn cp_unbal(cs: Seq<Energy>, c: Carrier, id: i32, t: int) -> real {
+    let d = cp_sum(cs, cs.len() as int, CKind::Use, c, id, t) - cp_sum(cs, cs.len() as int, CKind::Prod, c, id, t);
+    if d > 0real { d } else { 0real }
+}
+pub open spec fn cp_needed(cs: Seq<Energy>, c: Carrier, id: i32) -> bool {
+    cp_any(cs, cs.len() as int, CKind::Use, c, id) && exists|t: int| 0 <= t < nsteps(cs) && #[trigger] cp_unbal(cs, c, id, t) > 0real
+}
+pub open spec fn cp_src(c: Carrier) -> ProdSource { if c == Carrier::EAMBIENTE { ProdSource::EAMBIENTE } else { ProdSource::TERMOSOLAR } }
+/// what one appended component looks like
+pub open spec fn cp_added_ok(d0: Seq<Energy>, c: Carrier, e: Energy) -> bool {
+    &&& e is Prod && e->Prod_0.source == cp_src(c)
+    &&& cp_needed(d0, c, e_id(e))
+    &&& e_vals(e).len() == nsteps(d0)
+    &&& forall|t: int| 0 <= t < e_vals(e).len() ==> rv(#[trigger] e_vals(e)[t]) == cp_unbal(d0, c, e_id(e), t)
+}
+pub open spec fn completed_ok(d0: Seq<Energy>, c: Carrier, d1: Seq<Energy>) -> bool {
+    // nothing declared is dropped or altered
+    &&& d1.len() >= d0.len() && d1.take(d0.len() as int) == d0
+    // what is added is, step by step, exactly the uncovered use of that system alone
+    &&& forall|k: int| d0.len() <= k < d1.len() ==> cp_added_ok(d0, c, #[trigger] d1[k])
+    // at most once per system
+    &&& forall|k1: int, k2: int| d0.len() <= k1 < k2 < d1.len() ==> e_id(#[trigger] d1[k1]) != e_id(#[trigger] d1[k2])
+    // and for every system that has uncovered use
+    &&& forall|id: i32| #[trigger] cp_needed(d0, c, id) ==> exists|k: int| d0.len() <= k < d1.len() && e_id(#[trigger] d1[k]) == id
+}
+/// the components of one carrier, in order (first n components)
+pub open spec fn cfilter(cs: Seq<Energy>, n: int, c: Carrier) -> Seq<Energy> decreases n {
+    if n <= 0 { Seq::empty() } else if e_has_carrier(cs[n - 1], c) { cfilter(cs, n - 1, c).push(cs[n - 1]) } else { cfilter(cs, n - 1, c) }
+}
+/// of those, the ones of system `id` and kind k (first n)
+pub open spec fn kfilter(cs: Seq<Energy>, n: int, k: CKind, id: i32) -> Seq<Energy> decreases n {
+    if n <= 0 { Seq::empty() } else if e_id(cs[n - 1]) == id && (match k { CKind::Use => cs[n - 1] is Used, CKind::Prod => cs[n - 1] is Prod }) { kfilter(cs, n - 1, k, id).push(cs[n - 1]) } else { kfilter(cs, n - 1, k, id) }
+}
+pub open spec fn es_sum(s: Seq<Energy>, n: int, t: int) -> real decreases n {
+    if n <= 0 { 0real } else { es_sum(s, n - 1, t) + ls_get(e_vals(s[n - 1]), t) }
+}
+pub proof fn lemma_cfilter_props(cs: Seq<Energy>, n: int, c: Carrier, m: nat)
+    requires 0 <= n <= cs.len(), wf_list(cs, m),
+    ensures same_carrier(cfilter(cs, n, c), c), wf_list(cfilter(cs, n, c), m), cfilter(cs, n, c).len() <= n,
+        forall|j: int| 0 <= j < cfilter(cs, n, c).len() ==> exists|i: int| 0 <= i < n && cs[i] == #[trigger] cfilter(cs, n, c)[j],
+        forall|i: int| 0 <= i < n && e_has_carrier(#[trigger] cs[i], c) ==> exists|j: int| 0 <= j < cfilter(cs, n, c).len() && cfilter(cs, n, c)[j] == cs[i],
+    decreases n,
+{
+    if n > 0 {
+        lemma_cfilter_props(cs, n - 1, c, m);
+        let a = cfilter(cs, n - 1, c);
+        let b = cfilter(cs, n, c);
+        if e_has_carrier(cs[n - 1], c) {
+            assert(b == a.push(cs[n - 1]));
+            assert forall|j: int| 0 <= j < b.len() implies exists|i: int| 0 <= i < n && cs[i] == #[trigger] b[j] by {
+                if j < a.len() { assert(b[j] == a[j]); let i = choose|i: int| 0 <= i < n - 1 && cs[i] == a[j]; assert(cs[i] == b[j]); } else { assert(cs[n - 1] == b[j]); }
+            }
+            assert forall|i: int| 0 <= i < n && e_has_carrier(#[trigger] cs[i], c) implies exists|j: int| 0 <= j < b.len() && b[j] == cs[i] by {
+                if i < n - 1 { let j = choose|j: int| 0 <= j < a.len() && a[j] == cs[i]; assert(b[j] == cs[i]); } else { assert(b[a.len() as int] == cs[i]); }
+            }
+        }
+    }
+}
+/// sums over the per-carrier list = conditional sums over the whole list
+pub proof fn lemma_cfilter_sum(cs: Seq<Energy>, n: int, c: Carrier, k: CKind, id: i32, t: int)
+    requires 0 <= n <= cs.len(),
+    ensures cp_sum(cfilter(cs, n, c), cfilter(cs, n, c).len() as int, k, c, id, t) == cp_sum(cs, n, k, c, id, t),
+            cp_any(cfilter(cs, n, c), cfilter(cs, n, c).len() as int, k, c, id) == cp_any(cs, n, k, c, id),
+    decreases n,
+{
+    if n > 0 {
+        lemma_cfilter_sum(cs, n - 1, c, k, id, t);
+        let a = cfilter(cs, n - 1, c);
+        let b = cfilter(cs, n, c);
+        if e_has_carrier(cs[n - 1], c) {
+            assert(b == a.push(cs[n - 1]));
+            lemma_cp_sum_prefix(b, a, a.len() as int, k, c, id, t);
+            assert(cp_sum(b, b.len() as int, k, c, id, t) == cp_sum(b, a.len() as int, k, c, id, t) + (if cp_sel(k, c, id, b[a.len() as int]) { ls_get(e_vals(b[a.len() as int]), t) } else { 0real }));
+            if cp_any(a, a.len() as int, k, c, id) { let j = choose|j: int| 0 <= j < a.len() && cp_sel(k, c, id, #[trigger] a[j]); assert(cp_sel(k, c, id, b[j])); }
+            if cp_any(b, b.len() as int, k, c, id) { let j = choose|j: int| 0 <= j < b.len() && cp_sel(k, c, id, #[trigger] b[j]); if j < a.len() { assert(cp_sel(k, c, id, a[j])); } else { assert(cp_sel(k, c, id, cs[n - 1])); } }
+            if cp_any(cs, n - 1, k, c, id) { let j = choose|j: int| 0 <= j < n - 1 && cp_sel(k, c, id, #[trigger] cs[j]); assert(cp_sel(k, c, id, cs[j])); }
+            if cp_any(cs, n, k, c, id) { let j = choose|j: int| 0 <= j < n && cp_sel(k, c, id, #[trigger] cs[j]); if j < n - 1 { assert(cp_any(cs, n - 1, k, c, id)); } else { assert(cp_sel(k, c, id, b[a.len() as int])); } }
+        } else {
+            if cp_any(cs, n, k, c, id) { let j = choose|j: int| 0 <= j < n && cp_sel(k, c, id, #[trigger] cs[j]); assert(j < n - 1); assert(cp_any(cs, n - 1, k, c, id)); }
+            if cp_any(cs, n - 1, k, c, id) { let j = choose|j: int| 0 <= j < n - 1 && cp_sel(k, c, id, #[trigger] cs[j]); assert(cp_sel(k, c, id, cs[j])); }
+        }
+    }
+}
+pub proof fn lemma_cp_sum_prefix(b: Seq<Energy>, a: Seq<Energy>, n: int, k: CKind, c: Carrier, id: i32, t: int)
+    requires 0 <= n <= a.len(), n <= b.len(), forall|j: int| 0 <= j < n ==> a[j] == b[j],
+    ensures cp_sum(b, n, k, c, id, t) == cp_sum(a, n, k, c, id, t),
+    decreases n,
+{
+    if n > 0 { lemma_cp_sum_prefix(b, a, n - 1, k, c, id, t); }
+}
+pub proof fn lemma_es_sum_prefix(b: Seq<Energy>, a: Seq<Energy>, n: int, t: int)
+    requires 0 <= n <= a.len(), n <= b.len(), forall|j: int| 0 <= j < n ==> a[j] == b[j],
+    ensures es_sum(b, n, t) == es_sum(a, n, t),
+    decreases n,
+{
+    if n > 0 { lemma_es_sum_prefix(b, a, n - 1, t); }
+}
+/// plain sum over the (id, kind) sub-list of a one-carrier list = conditional sum over that list
+pub proof fn lemma_kfilter_sum(env: Seq<Energy>, n: int, c: Carrier, k: CKind, id: i32, t: int)
+    requires 0 <= n <= env.len(), same_carrier(env, c),
+    ensures es_sum(kfilter(env, n, k, id), kfilter(env, n, k, id).len() as int, t) == cp_sum(env, n, k, c, id, t),
+            (kfilter(env, n, k, id).len() > 0) == cp_any(env, n, k, c, id),
+    decreases n,
+{
+    if n > 0 {
+        lemma_kfilter_sum(env, n - 1, c, k, id, t);
+        let a = kfilter(env, n - 1, k, id);
+        let b = kfilter(env, n, k, id);
+        assert(e_has_carrier(env[n - 1], c));
+        if cp_sel(k, c, id, env[n - 1]) {
+            assert(b == a.push(env[n - 1]));
+            lemma_es_sum_prefix(b, a, a.len() as int, t);
+            assert(es_sum(b, b.len() as int, t) == es_sum(b, a.len() as int, t) + ls_get(e_vals(b[a.len() as int]), t));
+            assert(cp_sel(k, c, id, env[n - 1]));
+        } else {
+            assert(b == a);
+            if cp_any(env, n, k, c, id) { let j = choose|j: int| 0 <= j < n && cp_sel(k, c, id, #[trigger] env[j]); assert(j < n - 1); assert(cp_any(env, n - 1, k, c, id)); }
+        }
+        if cp_any(env, n - 1, k, c, id) { let j = choose|j: int| 0 <= j < n - 1 && cp_sel(k, c, id, #[trigger] env[j]); assert(cp_sel(k, c, id, env[j])); }
+    }
+}
+pub proof fn lemma_kfilter_wf(env: Seq<Energy>, n: int, k: CKind, id: i32, m: nat)
+    requires 0 <= n <= env.len(), wf_list(env, m),
+    ensures wf_list(kfilter(env, n, k, id), m),
+    decreases n,
+{
+    if n > 0 { lemma_kfilter_wf(env, n - 1, k, id, m); }
+}
+/// the list handed to veclistsum holds the series of the components of `s`
+pub open spec fn vals_of(l: Seq<&[f32]>, s: Seq<Energy>) -> bool {
+    l.len() == s.len() && forall|j: int| 0 <= j < l.len() ==> (#[trigger] l[j])@ == e_vals(s[j])
+}
+pub proof fn lemma_ls_es(l: Seq<&[f32]>, s: Seq<Energy>, n: int, t: int, m: nat)
+    requires vals_of(l, s), 0 <= n <= l.len(), wf_list(s, m),
+    ensures ls_sum(l, n, t) == es_sum(s, n, t), n > 0 ==> ls_maxlen(l, n) == m,
+    decreases n,
+{
+    if n > 0 {
+        lemma_ls_es(l, s, n - 1, t, m);
+        assert(l[n - 1]@ == e_vals(s[n - 1]));
+        assert(e_vals(s[n - 1]).len() == m);
+        if n == 1 { assert(ls_maxlen(l, 0) == 0); }
+    }
+}
+pub proof fn lemma_sumf_nonneg(s: Seq<f32>)
+    requires forall|i: int| 0 <= i < s.len() ==> rv(#[trigger] s[i]) >= 0real,
+    ensures sumf(s) >= 0real, sumf(s) == 0real ==> forall|i: int| 0 <= i < s.len() ==> rv(#[trigger] s[i]) == 0real,
+    decreases s.len(),
+{
+    if s.len() > 0 {
+        let a = s.drop_last();
+        assert forall|i: int| 0 <= i < a.len() implies rv(#[trigger] a[i]) >= 0real by { assert(a[i] == s[i]); }
+        lemma_sumf_nonneg(a);
+        if sumf(s) == 0real {
+            assert(rv(s.last()) >= 0real);
+            assert forall|i: int| 0 <= i < s.len() implies rv(#[trigger] s[i]) == 0real by { if i < a.len() { assert(a[i] == s[i]); } }
+        }
+    }
+}
+pub open spec fn view_iset(s: HashSet<i32>) -> Set<i32> { s@ }
+pub open spec fn iset_iter_ok(s: Set<i32>, rem: Seq<&i32>) -> bool {
+    &&& rem.no_duplicates()
+    &&& (forall|c: i32| s.contains(c) ==> exists|j: int| 0 <= j < rem.len() && *(#[trigger] rem[j]) == c)
+}
+pub open spec fn view_ve(v: Vec<Energy>) -> Seq<Energy> { v@ }
+pub open spec fn view_vre(v: Vec<&Energy>) -> Seq<&Energy> { v@ }
+pub open spec fn view_vs(v: Vec<&[f32]>) -> Seq<&[f32]> { v@ }
+pub proof fn lemma_sumf_zero(s: Seq<f32>)
+    requires forall|i: int| 0 <= i < s.len() ==> rv(#[trigger] s[i]) == 0real,
+    ensures sumf(s) == 0real,
+    decreases s.len(),
+{
+    if s.len() > 0 {
+        let a = s.drop_last();
+        assert forall|i: int| 0 <= i < a.len() implies rv(#[trigger] a[i]) == 0real by { assert(a[i] == s[i]); }
+        lemma_sumf_zero(a);
+    }
 }
